@@ -18,7 +18,8 @@ def check(w):
     v = Verdict(w, "model_checking")
     r, cov, scen = p_recv.design_and_generate(w, "c11")
     if w.tier == "quick":
-        scen = [s for i, s in enumerate(scen) if i % 3 == w.seed % 3]
+        import random
+        scen = random.Random(w.seed).sample(scen, len(scen) // 5)
     counts = {"traces": 0, "trace_states": 0}
     obs, rej = p_recv.run_validate_confirm(w, "c11", scen, "c11", v, counts, sig, judge=JUDGE)
     nneg = p_recv.negative_controls(w, "c11", obs, rej, w.seed)
@@ -28,7 +29,7 @@ def check(w):
         "traces_validated_against_impl": counts["traces"], "trace_states": counts["trace_states"], "exhaustive": w.tier == "thorough",
         "samples": [{"list": o["list"], "opts": o["opts"], "recv": o["recv"], "final": o["final"], "result": o["result"]} for o in obs[:1]],
         "scenarios": len(scen), "evaluations": len(obs), "distinct_nontrivial": nontriv,
-        "rule": "attribute classes (file perms 0000/0400/0555/0644/0777/0200, dir perms 0755/0555/0700/0500, mtimes 1, 1000, 2e9) x all subsets of {-p,-t,-l} x prior destination {absent, present with other attributes}, "
+        "rule": "attribute classes (file perms 0000/0400/0555/0644/0777/0200, dir perms 0755/0555/0700/0500, mtimes -2e9, -2, 1, 1000, 2e9) x all subsets of {-p,-t,-l,-c} with -D, files, directories, a symlink, a fifo and a character device, x prior destination {absent, present with other attributes}, "
                 "incl. a read-only directory with content; non-trivial = at least one preserve option on",
         "action_coverage": cov, "negative_controls": nneg, "worker_crashes": counts.get("crashed", 0),
     }
